@@ -230,7 +230,47 @@ def run_errset(prog, tier, repo):
                           f'into self.{tested}: an error reported through it is invisible to has_errors() and the '
                           f'program is compiled')
     res.floor('public report methods', len(reporters), 20)
+    # merge clause: the per-module error sets of the parallel checker are folded into one set in whatever order the workers
+    # delivered them. The fold is order-insensitive (and loses nothing) as long as merging is a plain union: the method that takes
+    # another ErrorSet moves every element over on every path and decides nothing by looking at them.
+    mergers = [b for b in methods if b.nargs >= 2 and b.locals[1].k == 'ref' and b.locals[1].extra == 1
+               and any(_strip(b.locals[i]).k == 'adt' and _strip(b.locals[i]).id == es.id for i in range(2, b.nargs + 1))]
+    for b in sorted(mergers, key=lambda x: x.name):
+        key = f'merge:{b.name}'
+        bad = None
+        for bl in b.blocks:
+            t = bl.term
+            if bl.cleanup or t[0] != 'switch' or t[1][0] not in ('c', 'm'):
+                continue
+            # the only branch a union needs is the one on `next()` of the loop that moves the elements
+            sd = single_def(b, t[1][1].local)
+            drives_loop = False
+            if sd and sd[1] != 'term' and sd[2][0] == 'disc':
+                r, _ = root_local(b, sd[2][1].local)
+                sd2 = single_def(b, r)
+                drives_loop = bool(sd2 and sd2[1] == 'term' and (callee(sd2[2])[1] or '').split('::')[-1] == 'next')
+            if not drives_loop:
+                bad = t[4]
+                break
+        moved = any(not bl.cleanup and bl.term[0] == 'call' and (callee(bl.term)[1] or '').split('::')[-1] in
+                    ('extend', 'append', 'insert', 'merge') for bl in b.blocks)
+        if bad is not None:
+            res.violation(key, b.loc(bad), f'{b.name} merges another error set into this one but branches on something other than the '
+                          f'end of the elements: whether an error is kept then depends on what the receiving set already holds, i.e. '
+                          f'on the order in which the per-module sets arrive from the parallel checker (hash-map / scheduling order), '
+                          f'and an error of the other set can be lost')
+        elif not moved:
+            res.violation(key, b.loc(), f'{b.name} takes another error set but never moves its elements over')
+        else:
+            res.ok(key, b.loc(), 'plain union: every element is moved over on every path')
+    res.floor('methods merging two error sets', len(mergers), 1)
     return [res]
+
+
+def _strip(t):
+    while t.k in ('ref', 'ptr'):
+        t = t.args[0]
+    return t
 
 
 def run_assign_all_paths(prog, tier, repo):
